@@ -64,6 +64,10 @@ def kinds():
     out.append(("ident-str", "str", lambda n: I("s")))
     out.append(("ident-bool", "bool", lambda n: I("flag")))
     out.append(("ident-unknown", "int", lambda n: I("nosuchfield%d" % n)))
+    # unknown fields whose names ARE attributes of the objects a backend resolves names on
+    # (mapped class, column collection, Django model): still unknown fields
+    for nm in SPECIAL_UNKNOWN:
+        out.append(("ident-unknown:" + nm, "int", lambda n, nm=nm: I(nm)))
     out.append(("neg-ident", "int", lambda n: ("un", "neg", I("a"))))
     out.append(("neg-literal", "int", lambda n: ("un", "neg", T.I(7000 + n))))
     out.append(("arith", "int", lambda n: ("bin", "add", I("a"), T.I(7000 + n))))
@@ -73,11 +77,18 @@ def kinds():
     return out
 
 
+SPECIAL_UNKNOWN = ["metadata", "registry", "__init__", "__table__", "__mapper__", "mro", "__doc__",
+                   "__class__", "_sa_class_manager", "__tablename__", "__dict__", "__module__",
+                   "keys", "values", "items", "get", "update", "clear", "_collection", "columns",
+                   "objects", "_meta", "DoesNotExist", "save", "__eq__", "__len__"]
+
 REL_KINDS = [
     ("path-1", "str", lambda n: T.path("author", "name")),
     ("path-2", "str", lambda n: T.path("author", "country", "name")),
     ("path-int", "int", lambda n: T.path("author", "age")),
     ("path-unknown", "str", lambda n: T.path("author", "nosuchattr%d" % n)),
+] + [("path-unknown:" + nm, "str", lambda n, nm=nm: T.path("author", nm))
+     for nm in ("metadata", "__init__", "__table__", "mro", "keys", "objects", "_meta")] + [
     ("lambda-any-empty", "bool", lambda n: ("lam", I("comments"), "any", None, None)),
     ("lambda-any", "bool", lambda n: ("lam", I("comments"), "any", "c",
                                       ("cmp", "gt", T.path("c", "score"), T.I(7000 + n)))),
@@ -528,7 +539,7 @@ def run(ctx):
             if not ctx.mine(idx):
                 continue
             judge(ctx, kname, pos, t, backend, rel,
-                  unknown_field=kname in ("ident-unknown", "path-unknown"))
+                  unknown_field=kname.split(":")[0] in ("ident-unknown", "path-unknown"))
             if idx % 701 == 0:
                 ctx.sample({"kind": kname, "position": pos, "backend": backend,
                             "filter": to_text(t)})
@@ -597,4 +608,4 @@ def replay(ctx, case):
     t = drive.parse_term(case["filter"])[1]
     rel = any(n[0] in ("attr", "lam") for n in T.walk(t)) and case["kind"] in [k[0] for k in REL_KINDS]
     judge(ctx, case["kind"], case["position"], t, case["backend"], rel,
-          case["kind"] in ("ident-unknown", "path-unknown"))
+          case["kind"].split(":")[0] in ("ident-unknown", "path-unknown"))
